@@ -24,6 +24,17 @@ int main(int argc, char** argv)
     std::string cmd = argv[1];
     if (cmd == "gen")
         return gen_main(argc - 1, argv + 1);
+    if (cmd == "decode")
+    {
+        // decode <bytes file> [forced kind]: the libFuzzer byte format -> canonical case text
+        std::ifstream     in(argc > 2 ? argv[2] : "", std::ios::binary);
+        std::stringstream ss;
+        ss << in.rdbuf();
+        std::string b = ss.str();
+        cs::Case    c = cs::from_bytes(reinterpret_cast<const uint8_t*>(b.data()), b.size(), argc > 3 ? std::atoi(argv[3]) : -1);
+        std::fputs(cs::to_text(c).c_str(), stdout);
+        return 0;
+    }
     if (cmd == "replay")
     {
         en::Options opt;
